@@ -149,7 +149,7 @@ pub fn all() -> Vec<CheckDef> {
                 Family { name: "T7-restamp-then-cas", strategy: |_| templates::t7(), cases: |t| t.pick(16_000, 160_000) },
             ],
             exec: rcworld::exec,
-            rule: "programs hammering AtomicRc cells with load/store/swap/compare_exchange(_weak)/compare_exchange_tag; non-trivial = at least one successful and one failed CAS; distinct = distinct hash of the case",
+            rule: "programs hammering AtomicRc cells with load/store/swap/compare_exchange(_weak)/compare_exchange_tag; non-trivial = at least one successful and one failed CAS, or a CAS whose expected snapshot differed from the cell's word in the internal epoch bits only; distinct = distinct hash of the case",
             timeout_s: t60,
             assumptions: vec![ASSUME_SC, ASSUME_HOOKS],
             shards: s16,
@@ -170,7 +170,7 @@ pub fn all() -> Vec<CheckDef> {
                 Family { name: "T7w-restamp-then-weak-cas", strategy: |_| templates::t7w(), cases: |t| t.pick(16_000, 160_000) },
             ],
             exec: rcworld::exec,
-            rule: "programs hammering AtomicWeak cells; non-trivial = at least one successful and one failed CAS; distinct = distinct hash of the case",
+            rule: "programs hammering AtomicWeak cells, and the restamp-then-CAS template with the expected WeakSnapshot loaded from the cell, downgraded from a Snapshot loaded from an AtomicRc written at another epoch, or taken from a Weak; non-trivial = at least one successful and one failed CAS, or a CAS whose expected WeakSnapshot differed from the cell's word in the internal epoch bits only; distinct = distinct hash of the case",
             timeout_s: t60,
             assumptions: vec![ASSUME_SC, ASSUME_HOOKS],
             shards: s16,
